@@ -321,7 +321,8 @@ pub fn run(args: &Args, report: &mut Report) {
             report.oracle_failure(json!({"input": {"text_hex": hex(&text), "text": text, "level": level_name(level), "doc": doc},
                 "what": f, "class": classify(&text)}));
         }
-        tie_parse(&[(text, level, doc)], report);
+        tie_parse(&[(text.clone(), level, doc)], report);
+        tie_core(&[(text, level, doc)], report);
         return;
     }
 
@@ -417,6 +418,11 @@ pub fn run(args: &Args, report: &mut Report) {
     }
     // ---- (B) event streams of real parses through the model ---------------------------------
     tie_parse(&tie_cases, report);
+    // ---- (C) token-layer core ------------------------------------------------------------
+    tie_core(&tie_cases, report);
+    // ---- (D) reader + lexer loop ------------------------------------------------------------
+    let lex_texts: Vec<(String, LuaLanguageLevel)> = tie_cases.iter().map(|(t, l, _)| (t.clone(), *l)).collect();
+    tie_reader(&mut rng, if args.thorough() { 100_000 } else { 5_000 }, &lex_texts, report);
 }
 
 /// text of a tree S-expression (concatenated token texts)
@@ -482,6 +488,171 @@ fn tkind_of(code: &str) -> LuaTokenKind {
     }
 }
 
+const READER_PIECES: &[&str] = &["a", "1", "23", " ", "\t", "=", "==", "\n", "\r", "\0", "é", "中", "😀", "-", "[", "\u{feff}"];
+const READER_OPS: &[char] = &['b', 'b', 'b', 'r', 'r', 'D', 'S', 'N', 'X', 'Q'];
+
+fn real_reader_run(text: &str, start: usize, ops: &str) -> String {
+    let obs = |r: &mut Reader| {
+        let rg = r.current_range();
+        format!("{}:{}:{}:{}:{}:{}:{}", r.is_eof() as u8, r.current_char() as u32, r.next_char() as u32, r.prev_char() as u32,
+            rg.start_offset, rg.length, r.get_current_end_pos())
+    };
+    let mut r = Reader::new_with_range(text, SourceRange::new(start, text.len()));
+    let mut out = vec![obs(&mut r)];
+    for c in ops.chars() {
+        let n = match c {
+            'b' => { r.bump(); None }
+            'r' => { r.reset_buff(); None }
+            'D' => Some(r.eat_while(|ch| ch.is_ascii_digit())),
+            'S' => Some(r.eat_while(|ch| ch == ' ' || ch == '\t')),
+            'N' => Some(r.eat_while(|ch| ch != '\n' && ch != '\r')),
+            'X' => Some(r.eat_till_end()),
+            'Q' => Some(r.eat_when('=')),
+            _ => None,
+        };
+        let mut o = obs(&mut r);
+        if let Some(k) = n { o.push_str(&format!("#{k}")); }
+        out.push(o);
+    }
+    format!("ok {}", out.join(","))
+}
+
+/// (D): the real public `Reader` vs `Reader.R` on random op sequences; and the real token list of
+/// `LuaLexer::tokenize` replayed as a bump schedule through the model's lexer loop
+pub fn tie_reader(rng: &mut Rng, n: usize, texts: &[(String, LuaLanguageLevel)], report: &mut Report) {
+    let mut reqs = Vec::new();
+    let mut want = Vec::new();
+    let mut inputs = Vec::new();
+    for _ in 0..n {
+        let np = rng.below(9);
+        let text: String = (0..np).map(|_| *rng.pick(READER_PIECES)).collect();
+        let nops = rng.below(30);
+        let ops: String = (0..nops).map(|_| *rng.pick(READER_OPS)).collect();
+        let start = if rng.chance(1, 3) { rng.below(50) } else { 0 };
+        reqs.push(format!("tree.reader {} {} {}", hex(&text), start, if ops.is_empty() { "-".to_string() } else { ops.clone() }));
+        let (t2, o2) = (text.clone(), ops.clone());
+        want.push(vh_common::catch(move || real_reader_run(&t2, start, &o2)).unwrap_or_else(|_| "err panic".into()));
+        inputs.push(json!({"reader_text_hex": hex(&text), "start": start, "ops": ops}));
+        report.count("reader_op_sequences");
+    }
+    for (t, level) in texts {
+        let toks = LuaLexer::new(Reader::new(t), LexerConfig::new(*level), None).tokenize();
+        let ks: Vec<String> = toks.iter().map(|k| t[k.range.start_offset..k.range.end_offset()].chars().count().to_string()).collect();
+        reqs.push(format!("tree.lexloop {} {}", hex(t), if ks.is_empty() { "-".to_string() } else { ks.join(".") }));
+        let rs: Vec<String> = toks.iter().map(|k| format!("{}:{}", k.range.start_offset, k.range.length)).collect();
+        want.push(format!("ok {}", if rs.is_empty() { "-".to_string() } else { rs.join(",") }));
+        inputs.push(json!({"text_hex": hex(t), "text": t, "level": level_name(*level), "doc": true}));
+        report.count("lexer_loops");
+    }
+    let model = run_driver(&reqs);
+    for ((m, w), inp) in model.iter().zip(want.iter()).zip(inputs.iter()) {
+        report.evaluations += 1;
+        if m != w {
+            report.mismatch(json!({"input": inp, "model": m, "impl": w, "tie": "correspondence tree.reader / tree.lexloop (Reader vs Reader.R)"}));
+        } else {
+            report.traces_validated += 1;
+        }
+    }
+}
+
+fn tk_class(k: LuaTokenKind) -> char {
+    match k {
+        LuaTokenKind::TkShortComment | LuaTokenKind::TkLongComment => 'c',
+        LuaTokenKind::TkEndOfLine => 'e',
+        LuaTokenKind::TkWhitespace => 'w',
+        LuaTokenKind::TkShebang => 's',
+        LuaTokenKind::TkEof | LuaTokenKind::None => 'x',
+        _ => 'o',
+    }
+}
+
+/// (C): the token-layer model (`Core.parseEvents`) vs the real event stream: direct EatTokens carry
+/// the exact range (and class) of their lexer token, comment groups are tiled by doc tokens, and
+/// the real tree has one Comment node per group, starting where the group starts.
+pub fn tie_core(cases: &[(String, LuaLanguageLevel, bool)], report: &mut Report) {
+    let mut reqs = Vec::new();
+    let mut reals = Vec::new();
+    for (t, level, doc) in cases {
+        let (t2, l2, d2) = (t.clone(), *level, *doc);
+        let r = vh_common::catch(move || {
+            let (toks, evs, _) = LuaParser::verif_parse_events(&t2, config(l2, d2));
+            let tree = LuaParser::parse(&t2, config(l2, d2));
+            let comment_starts: Vec<usize> = tree
+                .get_red_root()
+                .descendants()
+                .filter(|n| LuaSyntaxKind::from(n.kind()) == LuaSyntaxKind::Comment)
+                .map(|n| u32::from(n.text_range().start()) as usize)
+                .collect();
+            (toks, evs, comment_starts)
+        });
+        match r {
+            Ok((toks, evs, cs)) => {
+                let kinds: String = toks.iter().map(|t| tk_class(t.kind)).collect();
+                reqs.push(format!("tree.core {} {}", if kinds.is_empty() { "-".to_string() } else { kinds }, *doc as u8));
+                reals.push(Some((toks, evs, cs)));
+            }
+            Err(_) => report.count("tie_core_skipped_panic"),
+        }
+    }
+    let model = run_driver(&reqs);
+    let mut it = reals.into_iter().flatten();
+    for (m, (t, level, doc)) in model.iter().zip(cases.iter()) {
+        let Some((toks, evs, comment_starts)) = it.next() else { break };
+        report.evaluations += 1;
+        report.count("core_event_streams");
+        let eats: Vec<(LuaTokenKind, SourceRange)> = evs.iter().filter_map(|e| match e {
+            MarkEvent::EatToken { kind, range } => Some((*kind, *range)),
+            _ => None,
+        }).collect();
+        let mut problem: Option<String> = None;
+        let mut pos = 0usize; // index into eats
+        let mut group_starts: Vec<usize> = Vec::new();
+        let items: Vec<&str> = if m == "ok -" { vec![] } else { m.trim_start_matches("ok ").split(',').collect() };
+        if !m.starts_with("ok") {
+            problem = Some(format!("model answered {m}"));
+        }
+        for (k, item) in items.iter().enumerate() {
+            if problem.is_some() { break; }
+            if let Some(i) = item.strip_prefix('e') {
+                let i: usize = i.parse().unwrap_or(usize::MAX);
+                match (toks.get(i), eats.get(pos)) {
+                    (Some(tk), Some((kind, range))) if *range == tk.range && tk_class(*kind) == tk_class(tk.kind) => pos += 1,
+                    (tk, ev) => problem = Some(format!("item {k} ({item}): lexer token {:?} but event {:?}", tk, ev)),
+                }
+            } else if let Some(r) = item.strip_prefix('d') {
+                let (a, b) = r.split_once('-').unwrap_or(("0", "0"));
+                let (a, b): (usize, usize) = (a.parse().unwrap_or(0), b.parse().unwrap_or(0));
+                if a >= b || b > toks.len() { problem = Some(format!("item {k} ({item}): bad group")); break; }
+                let (start, end) = (toks[a].range.start_offset, toks[b - 1].range.end_offset());
+                group_starts.push(start);
+                let mut p = start;
+                while p < end {
+                    match eats.get(pos) {
+                        Some((kind, range)) if range.start_offset == p && range.end_offset() <= end
+                            && !matches!(kind, LuaTokenKind::TkShortComment | LuaTokenKind::TkLongComment) && range.length > 0 => {
+                            p = range.end_offset();
+                            pos += 1;
+                        }
+                        ev => { problem = Some(format!("item {k} ({item}): doc tokens do not tile {start}..{end} at {p}: {:?}", ev)); break; }
+                    }
+                }
+                report.count("comment_groups");
+            }
+        }
+        if problem.is_none() && pos != eats.len() {
+            problem = Some(format!("{} real EatToken events beyond the model's items", eats.len() - pos));
+        }
+        if problem.is_none() && *doc && group_starts != comment_starts {
+            problem = Some(format!("comment groups start at {:?} but the tree's Comment nodes start at {:?}", group_starts, comment_starts));
+        }
+        match problem {
+            Some(pb) => report.mismatch(json!({"input": {"text_hex": hex(t), "text": t, "level": level_name(*level), "doc": doc},
+                "model": m, "impl": pb, "tie": "correspondence tree.core (Core.parseEvents vs the EatToken events / Comment nodes of a real parse)"})),
+            None => report.traces_validated += 1,
+        }
+    }
+}
+
 /// (B): model tree from the real event stream == real tree
 pub fn tie_parse(cases: &[(String, LuaLanguageLevel, bool)], report: &mut Report) {
     let mut reqs = Vec::new();
@@ -495,13 +666,21 @@ pub fn tie_parse(cases: &[(String, LuaLanguageLevel, bool)], report: &mut Report
             let tree = LuaParser::parse(&t2, config(l2, d2));
             let mut s = String::new();
             sexpr(&tree.get_red_root(), &mut s);
-            (enc, s, mark_level, evs.len())
+            let starts = evs.iter().filter(|e| matches!(e, MarkEvent::NodeStart { kind, .. } if *kind != LuaSyntaxKind::None)).count();
+            let ends = evs.iter().filter(|e| matches!(e, MarkEvent::NodeEnd)).count();
+            (enc, s, mark_level, evs.len(), starts as i64 - ends as i64)
         });
         match r {
-            Ok((enc, s, mark_level, nev)) => {
+            Ok((enc, s, mark_level, nev, open)) => {
                 reqs.push(format!("tree.build {enc}"));
                 impls.push(format!("ok {s}"));
                 kept.push((t.clone(), *level, *doc, mark_level, nev));
+                // Marker.C01_mark_level_inv on the implementation: mark_level = #NodeStart(non-None) - #NodeEnd
+                if open != mark_level as i64 {
+                    report.mismatch(json!({"input": {"text_hex": hex(t), "text": t, "level": level_name(*level), "doc": doc},
+                        "model": format!("mark_level = starts - ends = {open}"), "impl": format!("mark_level = {mark_level}"),
+                        "tie": "mark_level invariant (Marker.C01_mark_level_inv) on the event stream of a real parse"}));
+                }
             }
             Err(_) => report.count("tie_parse_skipped_panic"),
         }
